@@ -16,6 +16,8 @@ fn l_repeat() -> Layout {
 }
 fn l_out_key() -> Layout { use KeyCode::*; Layout { mappings: vec![m(&[B], &[D], Repeat::Special { keys: vec![E], delay_ms: 130, interval_ms: 30 }), m(&[A], &[C], Repeat::Normal)] } }
 fn l_edge() -> Layout { use KeyCode::*; Layout { mappings: vec![m(&[B], &[B], Repeat::Special { keys: vec![C], delay_ms: 0, interval_ms: 1 }), m(&[A], &[A], Repeat::Special { keys: vec![LEFTSHIFT, C], delay_ms: 1, interval_ms: 2147483 })] } }
+// outputs with key codes at and above 562 (the virtual keyboard registers key bits 1..562 only), alone and mixed with ordinary keys
+fn l_highcodes() -> Layout { use KeyCode::*; Layout { mappings: vec![m(&[A], &[LEFTSHIFT, RIGHT_UP], Repeat::Normal), m(&[A, B], &[KBDINPUTASSIST_PREV], Repeat::Normal), m(&[C], &[RIGHT_DOWN], Repeat::Disabled)] } }
 fn l_chord() -> Layout { use KeyCode::*; Layout { mappings: vec![m(&[CAPSLOCK], &[], Repeat::Normal), m(&[CAPSLOCK, J], &[LEFT], Repeat::Normal)] } }
 fn l_two_repeats() -> Layout {
   use KeyCode::*;
@@ -44,6 +46,7 @@ fn families(id: &str, tier: Tier) -> Vec<BFamily<'static>> {
       add("chord CAPSLOCK->[], CAPSLOCK+J->LEFT over {CAPSLOCK,J}", l_chord(), cfg(&[CAPSLOCK, J], l, 0, d, 0, 30));
       add("no-repeat A->A Disabled, B->B over {A,B,LEFTSHIFT}", l_norepeat(), cfg(&[A, B, LEFTSHIFT], if q { 5 } else { 6 }, 0, if q { 1 } else { 1 }, 0, 30));
       if !q { add("plain A->B over {A,C}, longer histories", l_plain(), cfg(&[A, C], 8, 0, 1, 0, 30)); }
+      add("high key codes: A->[LEFTSHIFT,RIGHT_UP], [A,B]->[KBDINPUTASSIST_PREV], C->[RIGHT_DOWN] over {A,B,C}", l_highcodes(), cfg(&[A, B, C], if q { 4 } else { 5 }, 0, if q { 0 } else { 1 }, 0, 30));
       { let mut cl = cfg(&[A, B, LEFTSHIFT], if q { 6 } else { 7 }, 0, 0, 0, 30); cl.single_event_wakeups = true;
         add("no-repeat layout over {A,B,LEFTSHIFT}: histories up to 6 (7) events, one per wake-up", l_norepeat(), cl); }
       // long bursts: a fixed alternating script delivered in one or two notifications of every size from a menu around
@@ -93,6 +96,7 @@ fn families(id: &str, tier: Tier) -> Vec<BFamily<'static>> {
       if !q { add("plain A->B over {A,C}, deviation bound 2", l_plain(), cfg(&[A, C], 3, 1, 2, 0, 30)); }
       { let mut cl = cfg(&[A, C], if q { 5 } else { 6 }, 2, 0, 0, 30); cl.single_event_wakeups = true;
         add("no-repeat layout over {A,C}: histories up to 5 (6) events, one per wake-up, up to 2 tablet events", l_norepeat(), cl); }
+      add("high key codes: A->[LEFTSHIFT,RIGHT_UP], [A,B]->[KBDINPUTASSIST_PREV], C->[RIGHT_DOWN] over {A,B,C}", l_highcodes(), cfg(&[A, B, C], if q { 3 } else { 4 }, 1, 0, 0, 30));
       { let mut cl = cfg(&[B, LEFTCTRL], if q { 4 } else { 5 }, 1, 0, 3, 30); cl.single_event_wakeups = true;
         add("repeat layout over {B,LEFTCTRL}: histories up to 4 (5) events, one per wake-up, up to 3 time-outs", l_repeat(), cl); }
     }
